@@ -54,15 +54,30 @@ Definition obs_of_m (m : mfilter) : string * filt := (ff_name (m_feature m), as_
 (* plan: (((roots, supported), rename, framework, requested), orders of the user's filters), observed (names, filters) *)
 Definition plancase := ((((list string * list string) * option (list (string * string)) * string * list string)
                          * list (list filt)) * (list string * list (string * filt)))%type.
+Definition plan_agrees (names : list string) (ms : list mfilter) (onames : list string) (ofilters : list (string * filt)) : bool :=
+  strs_same names onames && ofilts_sub (map obs_of_m ms) ofilters
+  && ofilts_sub ofilters (map obs_of_m ms) && Nat.eqb (List.length ms) (List.length ofilters).
+(* the plan with every renamed copy collected (known finding C11-renamed-filters-collapse repaired); outside kf_collapse this IS plan_path *)
+Definition plan_path_all (rename : options -> string -> string) (g : fgroup) (feat : rfeature) (requested : list string)
+           (gfs : list gfilter) : outcome (list string * list mfilter) :=
+  match identity_matched g feat gfs with
+  | Raises => Raises
+  | Done ms => let ms' := map (renamed rename) ms in Done (planned_names rename feat requested ms', ms')
+  end.
 Definition chk_plan (c : plancase) : bool :=
   match c with
   | ((((roots, sup), rn, fw, requested), orders), (onames, ofilters)) =>
       existsb (fun fs =>
-        match plan_path (tbl_rename sup rn) (p_group roots sup) (p_feat fw) requested (map plain_filter fs) with
-        | Done (names, ms) => strs_same names onames && ofilts_sub (map obs_of_m ms) ofilters
-                              && ofilts_sub ofilters (map obs_of_m ms) && Nat.eqb (List.length ms) (List.length ofilters)
+        let gfs := map plain_filter fs in
+        match plan_path (tbl_rename sup rn) (p_group roots sup) (p_feat fw) requested gfs with
+        | Done (names, ms) => plan_agrees names ms onames ofilters
         | Raises => false
-        end) orders
+        end
+        || (kf_collapse (tbl_rename sup rn) (p_group roots sup) (p_feat fw) gfs
+            && match plan_path_all (tbl_rename sup rn) (p_group roots sup) (p_feat fw) requested gfs with
+               | Done (names, ms) => plan_agrees names ms onames ofilters
+               | Raises => false
+               end)) orders
   end.
 
 (* gate: names of the feature set, the filters of the call in iteration order, per filter (do_filter ran?, columns read) *)
@@ -157,12 +172,22 @@ Definition mobs_eqb (a b : mobs) : bool :=
   end.
 Definition mobs_sub (a b : list mobs) : bool := forallb (fun x => existsb (mobs_eqb x) b) a.
 Definition matchcase := ((fgroup * rfeature * list gfilter) * mobserved)%type.
+(* the result of identity_matched_filters is a Python SET of copies: compared as sets (copies that are equal after unify_options /
+   domain / framework assignment are one element there; in the model add_all drops such duplicates one step later) *)
+Definition mlist_agrees (ms : list mfilter) (l : list mobs) : bool :=
+  mobs_sub (map mobs_of ms) l && mobs_sub l (map mobs_of ms).
+(* a filter on which GlobalFilter.domain raises (known finding C11-filter-domain-compare-raises); repaired = it simply does not match *)
+Definition raising (g : fgroup) (feat : rfeature) (gf : gfilter) : bool :=
+  criteria g (ff_name (gf_feature gf))
+  && match domain_match (ff_domain (gf_feature gf)) (r_domain feat) (g_domain g) with MRaise => true | _ => false end.
 Definition chk_match (c : matchcase) : bool :=
   match c with
   | ((g, feat, gfs), o) =>
       match identity_matched g feat gfs, o with
       | Raises, MRaised => true
-      | Done ms, MList l => mobs_sub (map mobs_of ms) l && mobs_sub l (map mobs_of ms) && Nat.eqb (List.length ms) (List.length l)
+      | Raises, MList l => match identity_matched g feat (filter (fun gf => negb (raising g feat gf)) gfs) with
+                           | Done ms => mlist_agrees ms l | Raises => false end
+      | Done ms, MList l => mlist_agrees ms l
       | _, _ => false
       end
   end.
@@ -404,18 +429,19 @@ def _pykey(f: Dict[str, Any]) -> Any:
     return (f["type"], json.dumps(_canon_real(f["par"]), sort_keys=True))
 
 
-def _struct_key(f: Dict[str, Any]) -> Any:
-    return (f["type"], json.dumps(f["par"], sort_keys=True))
+def _coqkey(f: Dict[str, Any]) -> Any:
+    """type and parameter as the Coq `params` record sees them (max_exclusive absent = False, 2 and 2.0 different)."""
+    return (f["type"], K.cq_filter({**f, "col": ""}))
 
 
 def _filters_ok(fl: List[Dict[str, Any]]) -> bool:
-    """no two filters with Python-equal but structurally different parameters (2 vs 2.0: parameter equality is modelled
-    structurally), no duplicates, no empty categorical list (PyArrow known finding, covered elsewhere)."""
+    """two filters have equal parameters in Python (SingleFilter.__eq__: raw tuples, 2 == 2.0) iff they have equal `params` in
+    Coq (structural); no two equal filters on one column; no empty categorical list (PyArrow known finding, covered elsewhere)."""
     for i, a in enumerate(fl):
         if a["type"] == "categorical_inclusion" and not a["par"]["values"]:
             return False
         for b in fl[i + 1:]:
-            if _pykey(a) == _pykey(b) and _struct_key(a) != _struct_key(b):
+            if (_pykey(a) == _pykey(b)) != (_coqkey(a) == _coqkey(b)):
                 return False
             if a["col"] == b["col"] and _pykey(a) == _pykey(b):
                 return False
@@ -641,11 +667,13 @@ def user_filters(c: Dict[str, Any]) -> List[Dict[str, Any]]:
 
 
 def filter_index(c: Dict[str, Any], d: Dict[str, Any]) -> Optional[int]:
-    """which of the case's filters a recorded SingleFilter is (by SingleFilter.name, type, parameter)."""
+    """which of the case's filters a recorded SingleFilter is: by SingleFilter.name, type, parameter; when SingleFilter.name is
+    not a column the user named (that is what the plan correspondence then reports), by type and parameter if that is unique."""
     for i, f in enumerate(c["filters"]):
         if f["col"] == d["col"] and f["type"] == d["type"] and _canon_real(f["par"]) == d["raw"]:
             return i
-    return None
+    cand = [i for i, f in enumerate(c["filters"]) if f["type"] == d["type"] and _canon_real(f["par"]) == d["raw"]]
+    return cand[0] if len(cand) == 1 else None
 
 
 def orders_for(c: Dict[str, Any], g: Dict[str, Any]) -> List[List[Dict[str, Any]]]:
@@ -867,11 +895,15 @@ def run(rep: vlib.Reporter, rng: random.Random, big: bool) -> bool:
                            "kf_collapse_domain": 0, "kf_collapse_defect_observed": 0, "kf_domain_raises_runs": 0,
                            "domain_groups_judged": 0, "same_filter_two_groups_runs": 0, "violations": 0}
 
+    per_kind: Dict[str, int] = {}
+
     def violation(key: str, what: str, c: Dict[str, Any]) -> None:
         nonlocal found
         cnt["violations"] += 1
         found = True
-        if cnt["violations"] <= 12:
+        kind = key.split(":", 1)[0]
+        per_kind[kind] = per_kind.get(kind, 0) + 1
+        if per_kind[kind] <= (1 if kind == "path-foreign-filter" else 3):
             rep.finding(key, what, c)
 
     plan_t, plan_x, gate_t, gate_x, row_t, row_x = [], [], [], [], [], []
